@@ -1030,6 +1030,130 @@ func c08History(e *c08Env, rng *Rng, f *jqF, names []string, steps int) (changes
 	return changes
 }
 
+// c08BigPlaces: where a big value sits in an object (the leaf) and the filter path that projects it
+// (its parent: plain keys only). In the projection's text (keys sorted) the small leaves lie partly
+// before and partly behind the big value, whichever place is taken.
+var c08BigPlaces = []struct{ leaf, parent []string }{
+	{[]string{"data", "blob"}, []string{"data"}},
+	{[]string{"metadata", "annotations", "kubectl.kubernetes.io/last-applied-configuration"}, []string{"metadata", "annotations"}},
+	{[]string{"metadata", "annotations", "kubectl.kubernetes.io/last-applied-configuration"}, []string{"metadata"}},
+	{[]string{"status", "zblob"}, []string{"status"}},
+}
+
+// c08BigValue: a text of 60-200 KiB (below and above 64 KiB, no length is special).
+func c08BigValue(rng *Rng) string {
+	n := rng.Range(60*1024, 200*1024)
+	unit := PickOne(rng, []string{"0123456789abcdef", "{\"k\":1},", "xy"})
+	s := strings.Repeat(unit, n/len(unit)+1)
+	return s[:n]
+}
+
+// c08BigCase: one hook with one or two v1 bindings whose projection holds a big value (no filter, or
+// a generated program joined with the path of the big value's parent); 1-2 objects carrying a big value;
+// the start sequence and a short generated history (c08History: resyncs, small changes inside / outside
+// the filter paths, retypes, there-and-back, deletes), then changes OF the big value: its last
+// character, one in the middle, its first one, one character more, and a resync in between.
+func c08BigCase(c *Case, rng *Rng) {
+	ns := fmt.Sprintf("c08-%d", c.Idx)
+	place := PickOne(rng, c08BigPlaces)
+	nb := 1
+	if rng.Chance(30) {
+		nb = 2
+	}
+	var specs []c08Spec
+	for k := 0; k < nb; k++ {
+		sp := c08Spec{keep: rng.Chance(60), b: c08GenBinding(rng)}
+		if k == 0 && rng.Chance(40) {
+			sp.b = c08Exec(g4AllTypes)
+		}
+		if k > 0 || rng.Chance(65) {
+			big := g4Path(place.parent...)
+			switch g := g4GenFilterWith(rng, 1, c08FilterPaths); rng.Intn(4) {
+			case 0:
+				sp.f = big
+			case 1:
+				sp.f = g4ArrF(g, big)
+			case 2:
+				sp.f = g4ObjF(g4Fld("a", big), g4Fld("z", g))
+			default:
+				sp.f = g4ObjF(g4Fld("p", g), g4Fld("q", big), g4Fld("r", g4Path("metadata", "labels")), g4Fld("s", g4Path("spec")))
+			}
+		}
+		specs = append(specs, sp)
+	}
+	f := specs[0].f
+	withBig := func(o map[string]any) map[string]any {
+		g4SetPath(o, place.leaf, c08BigValue(rng))
+		return o
+	}
+	names := []string{"o1", "o2"}[:rng.Range(1, 2)]
+	var initial []map[string]any
+	for _, nm := range names {
+		if nm == "o1" || rng.Chance(50) {
+			initial = append(initial, withBig(c08GenObject(rng, ns, nm)))
+		}
+	}
+	e := c08SetupHook(c, false, specs, rng.Bool(), initial)
+	ch := c08History(e, rng, f, names, rng.Range(3, 6))
+	// changes of the big value itself
+	for _, how := range []string{"last", "middle", "resync", "longer", "first"} {
+		if rng.Chance(30) {
+			continue
+		}
+		cur, live := e.states["o1"]
+		if !live {
+			cur = withBig(c08GenObject(rng, ns, "o1"))
+			e.jqProbe(cur)
+			e.deliver(kemtypes.WatchEventAdded, "o1", cur)
+			ch++
+		}
+		v, _ := g4GetPath(cur, place.leaf)
+		s, isStr := v.(string)
+		if !isStr || len(s) < 8 {
+			s = c08BigValue(rng)
+		}
+		flip := func(i int) string {
+			b := []byte(s)
+			if b[i] == 'Q' {
+				b[i] = 'R'
+			} else {
+				b[i] = 'Q'
+			}
+			return string(b)
+		}
+		switch how {
+		case "last":
+			s = flip(len(s) - 1)
+		case "middle":
+			s = flip(rng.Range(1, len(s)-2))
+		case "first":
+			s = flip(0)
+		case "longer":
+			s += PickOne(rng, []string{"Z", "ZZZ", strings.Repeat("Z", 999)})
+		case "resync":
+			e.deliver(kemtypes.WatchEventModified, "o1", cur)
+			c.Note("redeliver:resync")
+			continue
+		}
+		o := g4DeepCopyJSON(cur)
+		g4SetPath(o, place.leaf, s)
+		e.jqProbe(o)
+		e.deliver(kemtypes.WatchEventModified, "o1", o)
+		c.Note("change:inside-big-value:" + how)
+		ch++
+	}
+	c.Note("big-value")
+	c.Desc = fmt.Sprintf("big projection: %d binding(s), a value of 60-200 KiB at .%s of every object, first binding's jqFilter %q; generated history, then changes at the end / in the middle / at the head of the big value", nb, strings.Join(place.leaf, "."), specs[0].jqText())
+	c.Nontrivial = ch >= 3
+	for _, sp := range specs {
+		if sp.f == nil {
+			c.Note("filter:none")
+		} else {
+			c.Note("filter:" + sp.f.Kind)
+		}
+	}
+}
+
 func g4Lit(v any) *jqF               { return &jqF{Kind: "lit", Lit: v} }
 func g4Path(ks ...string) *jqF       { return &jqF{Kind: "path", Path: ks} }
 func g4ArrF(items ...*jqF) *jqF      { return &jqF{Kind: "arr", Items: items} }
@@ -1045,7 +1169,7 @@ func c08Obj(ns, name string, replicas int64, a any, x int64) map[string]any {
 }
 
 func runC08(r *Run) {
-	r.Rule = "per case: ONE HOOK CONFIGURATION with 1-3 kubernetes bindings on the same kind and namespace, the `kind` of every binding spelled in one of the ways the API resolves it (45% the Kind `ConfigMap`, otherwise another letter case, the plural resource name `configmaps` or the short name `cm` — the fake cluster's discovery reports the short name) (55% one binding, 45% two or three = several handlers of one shared informer), 75% configVersion v1 (rendered as JSON or block YAML; per binding executeHookOnEvent absent / [] / any subset of {Added,Modified,Deleted} in any order, now and then with a repeated item, x the deprecated watchEvent absent / [] / any subset: 45% executeHookOnEvent only, 10% neither key = the default, 15% watchEvent only, 30% both keys; keepFullObjectsInMemory false / true / left out) and 25% the legacy format without configVersion (onKubernetesEvent, per binding `event:` [] or any subset of add/update/delete in any order, now and then with a repeated name); per binding a jq program drawn from the fragment (paths incl. missing keys, paths through scalars, .metadata, .metadata.managedFields, .metadata.annotations; literals, object/array construction, `//`; results object/array/scalar/null/error; 12% with two or three expressions joined by `,` = several outputs, merged the legacy way) or no filter (20%). The whole configuration is loaded by the real HookConfig.LoadAndValidate and the MonitorConfig the loader built FOR EACH BINDING, as it is after the whole hook was converted, goes into a real resourceInformer of its own on kube-client/fake. Objects are ConfigMap-shaped with a random subset of six leaves and, mostly, the metadata of a real cluster (60% metadata.managedFields with 1-2 managers, 35% annotations incl. kubectl's last-applied one, generation/creationTimestamp, finalizers, ownerReferences). 0-3 objects loaded by the real createSharedInformer/loadExistedObjects (the monitor's own list, T0); then, in 90% of the cases, THE START SEQUENCE: between T0 and the informer start 35% of the listed objects are changed (inside / outside the filter paths, retype) and 30% of the not yet existing ones are created, nothing is delivered; then every object of the informer's own list is handed to the real OnAdd with isInInitialList = true (an unchanged one: a re-delivery that must be silent; a changed / created one: the only notification there is — it must update the snapshot and trigger as Added iff Added is listed and the projection differs); then a history of 3-14 changes (3-9 for several bindings) over 1-3 objects handed to the real OnAdd/OnUpdate/OnDelete of EVERY binding in turn, the way a shared informer does it: the harness keeps ONE *unstructured.Unstructured per live object (the informer's store), a new state is a new pointer, a re-delivery of an unchanged state hands the SAME pointer to every handler once more; after every handler call that binding's snapshot is read through the real getCachedObjects (what a hook run does), so snapshot reads lie between the deliveries to the other bindings and before every re-delivery. Steps: resync of the identical state (same pointer), changes only outside the first binding's filter paths, changes inside them (leaves, an annotation, the managedFields list), changes of the TYPE of a leaf inside them with the same JSON text (3 <-> '3', true <-> 'true', absent/null <-> 'null', an array or object <-> the string holding its text; 12% of the steps, half of them followed by the way back), A->B->A, deletes (also with a final state that differs from the cached one; every other one as DeletedFinalStateUnknown), re-adds, Modified and Deleted for objects the informer does not know. Every distinct object state is also run through the real applyFilter with every binding's filter and compared with the model's jq evaluator. Plus: all 64 pairs of `event` subsets for a legacy hook with two bindings (create, change, resync, delete). A case is non-trivial when it delivers >= 3 changes and contains at least one re-delivery or outside-only change; distinct = distinct op-line sequences. `cluster` cases (one or two v1 bindings) drive the real start sequence on the fake client: every binding lists through the real createSharedInformer; each object is changed / created in the cluster with 45% before anything watches; the first binding starts the real shared informer (FactoryStore.Start: the initial list is replayed with isInInitialList = true); the second binding is attached LATER to the running informer, after more changes (its handler gets the store replayed); then changes in the cluster (incl. deletes once every binding is attached), a hidden marker object as barrier; the replay is observed as a batch (`evq` lines, then `cache`). Corpus: the start sequence with a changed and a created object (v1 / legacy), every kind spelling with a pre-existing object."
+	r.Rule = "per case: ONE HOOK CONFIGURATION with 1-3 kubernetes bindings on the same kind and namespace, the `kind` of every binding spelled in one of the ways the API resolves it (45% the Kind `ConfigMap`, otherwise another letter case, the plural resource name `configmaps` or the short name `cm` — the fake cluster's discovery reports the short name) (55% one binding, 45% two or three = several handlers of one shared informer), 75% configVersion v1 (rendered as JSON or block YAML; per binding executeHookOnEvent absent / [] / any subset of {Added,Modified,Deleted} in any order, now and then with a repeated item, x the deprecated watchEvent absent / [] / any subset: 45% executeHookOnEvent only, 10% neither key = the default, 15% watchEvent only, 30% both keys; keepFullObjectsInMemory false / true / left out) and 25% the legacy format without configVersion (onKubernetesEvent, per binding `event:` [] or any subset of add/update/delete in any order, now and then with a repeated name); per binding a jq program drawn from the fragment (paths incl. missing keys, paths through scalars, .metadata, .metadata.managedFields, .metadata.annotations; literals, object/array construction, `//`; results object/array/scalar/null/error; 12% with two or three expressions joined by `,` = several outputs, merged the legacy way) or no filter (20%). The whole configuration is loaded by the real HookConfig.LoadAndValidate and the MonitorConfig the loader built FOR EACH BINDING, as it is after the whole hook was converted, goes into a real resourceInformer of its own on kube-client/fake. Objects are ConfigMap-shaped with a random subset of six leaves and, mostly, the metadata of a real cluster (60% metadata.managedFields with 1-2 managers, 35% annotations incl. kubectl's last-applied one, generation/creationTimestamp, finalizers, ownerReferences). 0-3 objects loaded by the real createSharedInformer/loadExistedObjects (the monitor's own list, T0); then, in 90% of the cases, THE START SEQUENCE: between T0 and the informer start 35% of the listed objects are changed (inside / outside the filter paths, retype) and 30% of the not yet existing ones are created, nothing is delivered; then every object of the informer's own list is handed to the real OnAdd with isInInitialList = true (an unchanged one: a re-delivery that must be silent; a changed / created one: the only notification there is — it must update the snapshot and trigger as Added iff Added is listed and the projection differs); then a history of 3-14 changes (3-9 for several bindings) over 1-3 objects handed to the real OnAdd/OnUpdate/OnDelete of EVERY binding in turn, the way a shared informer does it: the harness keeps ONE *unstructured.Unstructured per live object (the informer's store), a new state is a new pointer, a re-delivery of an unchanged state hands the SAME pointer to every handler once more; after every handler call that binding's snapshot is read through the real getCachedObjects (what a hook run does), so snapshot reads lie between the deliveries to the other bindings and before every re-delivery. Steps: resync of the identical state (same pointer), changes only outside the first binding's filter paths, changes inside them (leaves, an annotation, the managedFields list), changes of the TYPE of a leaf inside them with the same JSON text (3 <-> '3', true <-> 'true', absent/null <-> 'null', an array or object <-> the string holding its text; 12% of the steps, half of them followed by the way back), A->B->A, deletes (also with a final state that differs from the cached one; every other one as DeletedFinalStateUnknown), re-adds, Modified and Deleted for objects the informer does not know. Every distinct object state is also run through the real applyFilter with every binding's filter and compared with the model's jq evaluator. Plus: all 64 pairs of `event` subsets for a legacy hook with two bindings (create, change, resync, delete). A case is non-trivial when it delivers >= 3 changes and contains at least one re-delivery or outside-only change; distinct = distinct op-line sequences. `cluster` cases (one or two v1 bindings) drive the real start sequence on the fake client: every binding lists through the real createSharedInformer; each object is changed / created in the cluster with 45% before anything watches; the first binding starts the real shared informer (FactoryStore.Start: the initial list is replayed with isInInitialList = true); the second binding is attached LATER to the running informer, after more changes (its handler gets the store replayed); then changes in the cluster (incl. deletes once every binding is attached), a hidden marker object as barrier; the replay is observed as a batch (`evq` lines, then `cache`). `big` cases (10 quick / 40 thorough): a hook with one or two v1 bindings whose projection holds a value of 60-200 KiB (lengths below and above 64 KiB; at data.blob, in kubectl's last-applied annotation or at status.zblob; no filter, or the path of its parent alone / joined with a generated filter in an array or object), 1-2 such objects, the start sequence and a generated history of 3-6 steps (the small changes then lie before or behind the big value in the projection's text), then changes of the big value itself: its last character, one in the middle, a resync, 1-999 characters more, its first character. Corpus: the start sequence with a changed and a created object (v1 / legacy), every kind spelling with a pre-existing object."
 
 	// ---- corpus: the counterexamples of the repaired defect (filter results that are not objects)
 	corpus := []struct {
@@ -1406,6 +1530,14 @@ func runC08(r *Run) {
 		c.Note("redeliver:resync")
 		e.deliver(kemtypes.WatchEventDeleted, "o1", o2)
 		c.Nontrivial = true
+	})
+
+	// ---- big objects: the projection is a text of 60-200 KiB (a ConfigMap holds up to 1 MiB, kubectl's
+	// last-applied annotation repeats the whole object); the changes are the small ones of every history
+	// (somewhere before / behind the big value in the projection's text) and changes at the head, in the
+	// middle and at the very end of the big value itself
+	r.Cases(700000, r.N(10, 40), 0, func(c *Case, rng *Rng) {
+		c08BigCase(c, rng)
 	})
 
 	// ---- cluster mode: the informer is started on the fake client, changes happen in the cluster
